@@ -846,6 +846,7 @@ fn main() {
         explore::<Tr<5>>(&mut ctx, &mut tot, caps, 1, 3600);
         explore::<u32>(&mut ctx, &mut tot, caps, 1, 3600);
         explore::<TrB>(&mut ctx, &mut tot, caps, 1, 3600);
+        explore::<TrA>(&mut ctx, &mut tot, caps, 1, 3600);
     } else {
         let budget: u64 = ctx.extra.get("budget").and_then(|s| s.parse().ok()).unwrap_or(if ctx.thorough() { 2400 } else { 50 });
         if let Some(c) = ctx.extra.get("caps").map(|s| parse_caps(s)) {
@@ -858,6 +859,7 @@ fn main() {
             explore::<Tr<5>>(&mut ctx, &mut tot, Caps { lmax: 3, containers: 3, elements: 4 }, threads, budget);
             explore::<u32>(&mut ctx, &mut tot, Caps { lmax: 3, containers: 3, elements: 4 }, threads, budget);
             explore::<TrB>(&mut ctx, &mut tot, Caps { lmax: 3, containers: 3, elements: 4 }, threads, budget);
+            explore::<TrA>(&mut ctx, &mut tot, Caps { lmax: 3, containers: 3, elements: 4 }, threads, budget);
         } else {
             explore::<Tr<0>>(&mut ctx, &mut tot, Caps { lmax: 3, containers: 3, elements: 3 }, threads, budget);
             explore::<TrZ>(&mut ctx, &mut tot, Caps { lmax: 3, containers: 2, elements: 4 }, threads, budget);
@@ -865,6 +867,9 @@ fn main() {
             explore::<Tr<0>>(&mut ctx, &mut tot, Caps { lmax: 5, containers: 2, elements: 5 }, threads, budget);
             // heap payload: under the AddressSanitizer substrate a double drop is a double free
             explore::<TrB>(&mut ctx, &mut tot, Caps { lmax: 3, containers: 2, elements: 4 }, threads, budget);
+            // over-aligned element (size = align = 32): a slot computed with the wrong stride or a block requested with
+            // the wrong alignment puts an element at a misaligned address, which its `ident()` reports
+            explore::<TrA>(&mut ctx, &mut tot, Caps { lmax: 3, containers: 2, elements: 3 }, threads, budget);
         }
     }
     let ops: serde_json::Map<String, serde_json::Value> = tot.op_counts.iter().map(|(k, v)| (k.to_string(), json!(v))).collect();
